@@ -316,6 +316,9 @@ func checkC16(c *Ctx) {
 			o := GenOpts{Profile: "c16", Mode: "test", MinReg: n, MaxReg: n, Latency: "zero", ExplicitUEs: 3, OptIEs: i%2 == 0}
 			s := Gen(root.Uint64(), o)
 			s.Quiet = n > 50
+			if n >= 1000 {
+				s.Rig = map[string]interface{}{"long": true}
+			}
 			jobs = append(jobs, Job{S: s, Rig: "ws", Judge: "ws-c16", Tag: fmt.Sprintf("c16/N=%d", n)})
 		}
 	}
